@@ -42,7 +42,7 @@ def shards(tier, seed):
     out.append({"name": "ds64_%d" % i, "env": {"x64": True, "devices": 2}, "kind": "ds", "n": n, "budget_s": 1500 if tier == "quick" else 6500})
   out.append({"name": "sm3", "env": {"x64": False}, "kind": "sm3", "n": n * 2, "budget_s": 1500 if tier == "quick" else 6500})
   for i in range(2):
-    out.append({"name": "tf%d" % i, "env": {"x64": False}, "kind": "tf", "n": n, "budget_s": 1500 if tier == "quick" else 6500})
+    out.append({"name": "tf%d" % i, "env": {"x64": False}, "kind": "tf", "n": n * 3, "budget_s": 1500 if tier == "quick" else 6500})
   return out
 
 
@@ -287,7 +287,7 @@ def check_sm3(c, rec):
 
 
 def gen_tf(rng):
-  shapes = [(4, 3), (6,), (8, 4), (2, 3, 2), (1, 5), (4, 4), (), (1,), (3, 5), (8, 2, 2), (12, 3), (5, 1, 2)]
+  shapes = [(4, 3), (6,), (8, 4), (2, 3, 2), (1, 5), (4, 4), (), (1,), (3, 5), (8, 2, 2), (12, 3), (5, 1, 2), (6, 6), (5, 3, 5), (5, 5)]
   n = int(rng.integers(1, 4))
   return {"kind": "tf", "tree": {"p%d" % j: list(shapes[int(rng.integers(0, len(shapes)))]) for j in range(n)},
           "second": str(rng.choice(["shampoo", "sketchy"])), "graft": str(rng.choice(["none", "sgd", "rmsprop", "adafactor"])),
@@ -295,7 +295,7 @@ def gen_tf(rng):
           "start": int(rng.choice([0, 2])), "skip_rank1": bool(rng.integers(0, 2)), "dim_gt": int(rng.choice([4096, 6])),
           "mdecay": float(rng.choice([0.0, 0.9])), "ema": bool(rng.integers(0, 2)), "nesterov": bool(rng.integers(0, 2)),
           "wd": float(rng.choice([0.0, 0.1])), "wd_after": bool(rng.integers(0, 2)), "sched": bool(rng.integers(0, 2)),
-          "freq": int(rng.choice([1, 2])), "add_ggt": bool(rng.random() < 0.2), "ekfac": bool(rng.random() < 0.2),
+          "freq": int(rng.choice([1, 2])), "add_ggt": bool(rng.random() < 0.2), "ekfac": bool(rng.random() < 0.4),
           "linear_tail": bool(rng.random() < 0.2), "hseed": int(rng.integers(0, 2 ** 31))}
 
 
